@@ -15,10 +15,9 @@ package broker
 
 // ---------------------------------------------------------------- ghost state
 //
-// saved[dir][id]: type code of the packet stored in the client's session under
-// id in direction dir (0 incoming, 1 outgoing); 0 = nothing stored.
-//@ ghost saved map[int]map[int]int
-//@ ghost nall int
+// saved[dir][id] (declared in package session): type code of the packet
+// stored in the client's session under id in direction dir (0 incoming,
+// 1 outgoing); 0 = nothing stored.
 //@ ghost authok bool
 //@ ghost nauth int
 //@ ghost nsetup int
